@@ -34,7 +34,7 @@ def check(ctx) -> Result:
     st = ra_modes.check_mutators(ctx, res, C, ["bs", "ps", "loss", "barrier", "mode_swaps", "herald"])
     res.floor("A mode sinks", st["sinks"], 20)
     res.floor("A mapper calls", st["map_calls"], 8)
-    res.floor("A3 recorded user indices", st["a3"], 9)
+    res.floor("A3 recorded user indices", st["a3"], 5)
     mir = C.methods["_mode_in_range"]
     norm = Normaliser(lambda e: repr(e.value) if isinstance(e, ast.Constant) else None)
     re_guards.range_validator(ctx, res, mir, "mode", 0, "self.n_modes", hi_strict=True, norm=norm, rule="E-mode-range")
